@@ -39,6 +39,14 @@ CLAIMED = {
         design="DESIGN.md section 2, C02",
         technique="symbolic execution of the real functions on z3-real object arrays; polynomial-identity validity queries (z3)",
     ),
+    "C06": dict(
+        text="The real CP-ALS (plain, normalised, l2, masked, sparse+low-rank, line-search, orthogonalised, fixed-mode, SVD/random/user init), HOOI/Tucker and PARAFAC2 loops are "
+        "executed symbolically with havoc'd or Givens-generated kernels, so every sweep starts from an arbitrary iterate; each reported error (list entries and callback "
+        "arguments, for prefix runs n_iter_max=1..K) is proved equal to the from-scratch relative error of the iterate it belongs to (root atoms interned modulo "
+        "polynomial identity, denominators cleared before z3 decides), and every sqrt argument is checked for rounding robustness. Bounded to sizes 2-3, ranks 1-2, K<=3 (8 for line search).",
+        design="DESIGN.md section 2, C06",
+        technique="symbolic execution with havoc/Givens kernel stubs; identity validity queries (z3) + rounding-model query on sqrt arguments",
+    ),
     "C12": dict(
         text="Every branch of each proximal/projection operator is executed symbolically (sorts and comparisons fork the path, clips merge into If-terms) on vectors "
         "and n x 2 matrices of solver variables with a symbolic positive parameter; the returned point is checked against the KKT / nearest-point "
